@@ -5,10 +5,13 @@ package home
 import (
 	"fmt"
 	"math/rand/v2"
+	"net/netip"
 	"os"
 	"path/filepath"
+	"regexp"
 	"sort"
 	"strconv"
+	"strings"
 	"testing"
 
 	"github.com/AdguardTeam/AdGuardHome/internal/configmigrate"
@@ -16,191 +19,401 @@ import (
 	yaml "gopkg.in/yaml.v3"
 )
 
-// C13.load: the clause "the current configuration loader accepts the result
-// whenever the input was valid under its own schema".  There is no formal
-// schema of the 29 historical versions, so this is a test, not a theorem: the
-// repository's own golden inputs (valid by construction), with mutations that
-// keep a file valid (unknown extra keys at any level are ignored by the
-// loader, every key of the old schemas is optional), are upgraded by the real
-// Migrate and loaded the way parseConfig does (yaml.Unmarshal into the default
-// configuration, validateConfig).
+// C13.load: the clause "…which the current configuration loader accepts
+// whenever the input was valid under its own schema".
 //
-//	C13.load body valid  =>  result loadOK
+// A case is a configuration file of some historical schema version.  The
+// implementation side runs the REAL startup path parseConfig (read, upgrade,
+// write back, yaml.Unmarshal into the default configuration, validateConfig,
+// validateTLSCipherIDs) and classifies its verdict.  The model side
+// (lean/AGH/Model/Loader.lean) starts after the two library stages: it gets,
+// as oracle fields, whether the upgrade and the decoding succeeded and the
+// values of the fields the validation reads, and computes the verdict; the spec
+// (lean/AGH/Spec/Loader.lean) says what the verdict must be from the documented
+// meaning of the settings.  `valid` is the generator's statement that the
+// document is valid under its own schema.
 //
-// result: U upgraded, S nothing to do, E:<msg> error, P:<msg> panic;
-// loadOK: 1, 0:<error>, or - when there is nothing to load.
+//	C13.load body valid migrated unmarshalled httpValid httpPort nBind b1..bn dnsPort
+//	         tlsEnabled portHTTPS portDoT portDoQ portDNSCrypt ciphersOK  =>  result
+//
+// result: ok | migrate | unmarshal | bindhttp | binddns:<i> | tcp:<p,…> | udp:<p,…> | ciphers | other:<hex>
 
-var c13lDir string
+var (
+	c13lDir     string
+	c13lDefault *configuration
+)
 
-func c13lLoad(body []byte) (res string) {
-	defer func() {
-		if v := recover(); v != nil {
-			res = "0:" + vutil.Hex("panic: "+fmt.Sprint(v))
-		}
-	}()
-
-	saved := config
-	defer func() { config = saved }()
-
-	c := *saved
-	if saved.HTTPConfig.Pprof != nil {
-		p := *saved.HTTPConfig.Pprof
-		c.HTTPConfig.Pprof = &p
+// c13lFresh is a copy of the default configuration the way it is at startup.
+func c13lFresh() (c *configuration) {
+	cc := *c13lDefault
+	if c13lDefault.HTTPConfig.Pprof != nil {
+		p := *c13lDefault.HTTPConfig.Pprof
+		cc.HTTPConfig.Pprof = &p
 	}
-	config = &c
+	if c13lDefault.Filtering != nil {
+		f := *c13lDefault.Filtering
+		cc.Filtering = &f
+	}
+	cc.DNS.BindHosts = append([]netip.Addr(nil), c13lDefault.DNS.BindHosts...)
+	cc.fileData = nil
 
-	if err := yaml.Unmarshal(body, config); err != nil {
-		return "0:" + vutil.Hex(err.Error())
-	}
-	if err := validateConfig(); err != nil {
-		return "0:" + vutil.Hex(err.Error())
-	}
-	if err := validateTLSCipherIDs(config.TLS.OverrideTLSCiphers); err != nil {
-		return "0:" + vutil.Hex(err.Error())
-	}
-
-	return "1"
+	return &cc
 }
 
+var (
+	c13lDupRe  = regexp.MustCompile(`validating (tcp|udp) ports: duplicated values: \[([0-9 ]*)\]`)
+	c13lBindRe = regexp.MustCompile(`dns\.bind_hosts at index (\d+) is not a valid ip address`)
+)
+
+func c13lMigrate(body []byte) (nb []byte, err error) {
+	m := configmigrate.New(&configmigrate.Config{WorkingDir: c13lDir, DataDir: filepath.Join(c13lDir, "data")})
+	nb, _, err = m.Migrate(append([]byte(nil), body...), configmigrate.LastSchemaVersion)
+
+	return nb, err
+}
+
+// c13lRun runs the real parseConfig on the body.
 func c13lRun(f []string) (out []string) {
 	if f[0] != "C13.load" {
 		panic("unknown op " + f[0])
 	}
 	body := []byte(vutil.Unhex(f[1]))
 
-	var (
-		nb       []byte
-		upgraded bool
-		err      error
-	)
-	func() {
-		defer func() {
-			if v := recover(); v != nil {
-				out = []string{"P:" + vutil.Hex(fmt.Sprint(v)), "-"}
-			}
-		}()
-		m := configmigrate.New(&configmigrate.Config{WorkingDir: c13lDir, DataDir: c13lDir})
-		nb, upgraded, err = m.Migrate(body, configmigrate.LastSchemaVersion)
-	}()
+	confPath := filepath.Join(c13lDir, "AdGuardHome.yaml")
+	if err := os.WriteFile(confPath, body, 0o644); err != nil {
+		panic(err)
+	}
+
+	oldConf, oldWorkDir, oldConfPath := config, globalContext.workDir, globalContext.confFilePath
+	defer func() { config, globalContext.workDir, globalContext.confFilePath = oldConf, oldWorkDir, oldConfPath }()
+
+	config = c13lFresh()
+	globalContext.workDir = c13lDir
+	globalContext.confFilePath = confPath
+
+	err := parseConfig()
+	if err == nil {
+		return []string{"ok"}
+	}
+
+	msg := err.Error()
 	switch {
-	case out != nil:
-		return out
-	case err != nil:
-		return []string{"E:" + vutil.Hex(err.Error()), "-"}
-	case !upgraded:
-		return []string{"S", c13lLoad(nb)}
-	default:
-		return []string{"U", c13lLoad(nb)}
+	case c13lDupRe.MatchString(msg):
+		m := c13lDupRe.FindStringSubmatch(msg)
+
+		return []string{m[1] + ":" + strings.Join(strings.Fields(m[2]), ",")}
+	case strings.Contains(msg, "http.address is not a valid ip address"):
+		return []string{"bindhttp"}
+	case c13lBindRe.MatchString(msg):
+		return []string{"binddns:" + c13lBindRe.FindStringSubmatch(msg)[1]}
+	case strings.Contains(msg, "override_tls_ciphers"):
+		return []string{"ciphers"}
+	case strings.Contains(msg, "writing new config"):
+		return []string{"other:" + vutil.Hex(msg)}
 	}
+	// An error of one of the two library stages: which one?
+	if _, merr := c13lMigrate(body); merr != nil {
+		return []string{"migrate"}
+	}
+
+	return []string{"unmarshal"}
 }
 
-func c13lExtra(r *rand.Rand, depth int) any {
-	switch r.IntN(7) {
-	case 0:
-		return nil
-	case 1:
-		return r.IntN(2) == 0
-	case 2:
-		return r.IntN(100000) - 5
-	case 3:
-		return vutil.Pick(r, []string{"", "x", "1.2.3.4", "quic://dns.example", "~", "123"})
-	case 4:
-		return 1.5
-	case 5:
-		if depth <= 0 {
-			return []any{}
-		}
-
-		return []any{c13lExtra(r, depth-1), c13lExtra(r, depth-1)}
-	default:
-		if depth <= 0 {
-			return map[string]any{}
-		}
-
-		return map[string]any{"verif_a": c13lExtra(r, depth-1), "verif_b": c13lExtra(r, depth-1)}
+// c13lOracle computes the fields the model starts from.
+func c13lOracle(body []byte) (fields []string) {
+	nb, merr := c13lMigrate(body)
+	c := c13lFresh()
+	uerr := error(nil)
+	if merr == nil {
+		uerr = yaml.Unmarshal(nb, c)
 	}
+
+	fields = append(fields, vutil.B(merr == nil), vutil.B(merr == nil && uerr == nil))
+	fields = append(fields, vutil.B(c.HTTPConfig.Address.IsValid()), strconv.Itoa(int(c.HTTPConfig.Address.Port())))
+	fields = append(fields, strconv.Itoa(len(c.DNS.BindHosts)))
+	for _, a := range c.DNS.BindHosts {
+		fields = append(fields, vutil.B(a.IsValid()))
+	}
+	fields = append(fields, strconv.Itoa(int(c.DNS.Port)), vutil.B(c.TLS.Enabled),
+		strconv.Itoa(int(c.TLS.PortHTTPS)), strconv.Itoa(int(c.TLS.PortDNSOverTLS)),
+		strconv.Itoa(int(c.TLS.PortDNSOverQUIC)), strconv.Itoa(int(c.TLS.PortDNSCrypt)),
+		vutil.B(validateTLSCipherIDs(c.TLS.OverrideTLSCiphers) == nil))
+
+	return fields
 }
 
-// c13lMutate keeps the document valid: adds keys no schema knows, or removes a key.
-func c13lMutate(r *rand.Rand, v any, depth int) {
-	m, ok := v.(map[string]any)
-	if !ok {
-		return
-	}
-	keys := make([]string, 0, len(m))
-	for k := range m {
-		keys = append(keys, k)
-	}
-	sort.Strings(keys)
-	switch r.IntN(4) {
-	case 0:
-		m["verif_extra_"+strconv.Itoa(r.IntN(3))] = c13lExtra(r, 2)
-	case 1:
-		if len(keys) > 0 && depth > 0 {
-			k := keys[r.IntN(len(keys))]
-			if k != "schema_version" {
-				delete(m, k)
-			}
+func c13lEmit(emit vutil.Emit, body []byte, valid bool) {
+	f := []string{"C13.load", vutil.Hex(string(body)), vutil.B(valid)}
+	f = append(f, c13lOracle(body)...)
+	emit(f...)
+}
+
+// ---------------------------------------------------------------- generator
+
+// c13lGolden[v] is a valid document of schema version v (the repository's own
+// golden files: vN/input.yml is of version N-1, vN/output.yml of version N).
+var c13lGolden = map[int][]byte{}
+
+func c13lLoadGoldens() {
+	for n := 1; n <= 29; n++ {
+		dir := filepath.Join("..", "configmigrate", "testdata", "TestMigrateConfig_Migrate", "v"+strconv.Itoa(n))
+		if b, err := os.ReadFile(filepath.Join(dir, "input.yml")); err == nil {
+			c13lGolden[n-1] = b
 		}
-	default:
-		if len(keys) > 0 {
-			k := keys[r.IntN(len(keys))]
-			switch c := m[k].(type) {
-			case map[string]any:
-				c13lMutate(r, c, depth+1)
-			case []any:
-				if len(c) > 0 {
-					c13lMutate(r, c[r.IntN(len(c))], depth+1)
-				}
+		if b, err := os.ReadFile(filepath.Join(dir, "output.yml")); err == nil {
+			if _, has := c13lGolden[n]; !has {
+				c13lGolden[n] = b
 			}
 		}
 	}
+}
+
+var (
+	c13lPorts   = []int{0, 0, 53, 80, 443, 784, 853, 853, 3000, 5353, 5443, 8853, 65535}
+	c13lHosts   = []string{"0.0.0.0", "127.0.0.1", "192.168.1.1", "::", "::1"}
+	c13lCiphers = []string{"TLS_AES_128_GCM_SHA256", "TLS_ECDHE_RSA_WITH_AES_128_GCM_SHA256", "TLS_CHACHA20_POLY1305_SHA256"}
+)
+
+// c13lListeners is the generator's own reading of the documented meaning: a
+// listener is active when its section is on and its port is not 0; two active
+// listeners of one transport must not share a port.
+func c13lClash(ports []int) bool {
+	seen := map[int]bool{}
+	for _, p := range ports {
+		if p == 0 {
+			continue
+		}
+		if seen[p] {
+			return true
+		}
+		seen[p] = true
+	}
+
+	return false
+}
+
+// c13lGenDoc builds a document of a random schema version; valid reports
+// whether every setting in it is valid and no two listeners clash.
+func c13lGenDoc(r *rand.Rand) (body []byte, valid bool) {
+	vers := make([]int, 0, len(c13lGolden))
+	for v := range c13lGolden {
+		vers = append(vers, v)
+	}
+	sort.Ints(vers)
+	ver := vutil.Pick(r, vers)
+	doc := map[string]any{}
+	if err := yaml.Unmarshal(c13lGolden[ver], &doc); err != nil {
+		panic(err)
+	}
+	valid = true
+	// The password hash is slow and not what this harness is about.
+	delete(doc, "auth_pass")
+	delete(doc, "auth_name")
+
+	sub := func(k string) map[string]any {
+		m, _ := doc[k].(map[string]any)
+		if m == nil {
+			m = map[string]any{}
+			doc[k] = m
+		}
+
+		return m
+	}
+
+	// the web interface
+	httpPort := 3000
+	switch x := r.IntN(10); {
+	case x < 2:
+		// keep what the golden file has / the default
+		delete(doc, "http")
+		delete(doc, "bind_host")
+		delete(doc, "bind_port")
+	default:
+		host := vutil.Pick(r, c13lHosts)
+		httpPort = vutil.Pick(r, c13lPorts)
+		if r.IntN(25) == 0 {
+			host, valid = vutil.Pick(r, []string{"localhost", "1.2.3", "256.1.1.1", ""}), false
+		}
+		if ver < 23 {
+			doc["bind_host"], doc["bind_port"] = host, httpPort
+			if r.IntN(40) == 0 {
+				doc["bind_port"], valid = 70000, false
+				httpPort = 70000 % 65536
+			}
+		} else {
+			addr := host + ":" + strconv.Itoa(httpPort)
+			if strings.Contains(host, ":") {
+				addr = "[" + host + "]:" + strconv.Itoa(httpPort)
+			}
+			sub("http")["address"] = addr
+			if r.IntN(40) == 0 {
+				sub("http")["address"], valid = vutil.Pick(r, []string{":3000", "127.0.0.1", "127.0.0.1:70000"}), false
+			}
+		}
+	}
+
+	// plain DNS (the section is called coredns before schema version 2)
+	dnsKey := "dns"
+	if ver < 2 {
+		dnsKey = "coredns"
+		delete(doc, "dns")
+	}
+	dns := sub(dnsKey)
+	dnsPort := 53
+	if r.IntN(4) > 0 {
+		dnsPort = vutil.Pick(r, c13lPorts)
+		dns["port"] = dnsPort
+		if r.IntN(40) == 0 {
+			dns["port"], valid = vutil.Pick(r, []any{70000, -1, "53a"}), false
+		}
+	} else {
+		delete(dns, "port")
+	}
+	if r.IntN(3) == 0 {
+		hosts := []any{vutil.Pick(r, c13lHosts)}
+		if r.IntN(3) == 0 {
+			hosts = append(hosts, vutil.Pick(r, c13lHosts))
+		}
+		if r.IntN(20) == 0 {
+			hosts, valid = append(hosts, vutil.Pick(r, []string{"not-an-ip", "1.2.3.4.5"})), false
+		}
+		if ver < 8 {
+			dns["bind_host"] = hosts[0]
+			delete(dns, "bind_hosts")
+		} else {
+			dns["bind_hosts"] = hosts
+			delete(dns, "bind_host")
+		}
+	}
+	if ver < 3 && r.IntN(3) == 0 {
+		// a scalar before schema version 3, a list afterwards
+		dns["bootstrap_dns"] = vutil.Pick(r, []string{"", "1.1.1.1", "8.8.8.8:53"})
+	}
+	if r.IntN(4) == 0 {
+		dns["upstream_timeout"] = vutil.Pick(r, []string{"10s", "0s", "1m30s", "500ms"})
+		if r.IntN(10) == 0 {
+			dns["upstream_timeout"], valid = vutil.Pick(r, []any{"ten seconds", "10", []any{1}}), false
+		}
+	}
+	if r.IntN(6) == 0 {
+		key := "filters_update_interval"
+		if ver >= 26 {
+			sub("filtering")[key] = vutil.Pick(r, []int{0, 1, 5, 12, 24, 72, 168, 1000})
+		} else {
+			dns[key] = vutil.Pick(r, []int{0, 1, 5, 12, 24, 72, 168, 1000})
+		}
+	}
+
+	// encryption
+	tcp := []int{httpPort}
+	udp := []int{dnsPort}
+	if r.IntN(10) > 1 {
+		tls := map[string]any{}
+		enabled := r.IntN(3) > 0
+		tls["enabled"] = enabled
+		tls["server_name"] = "dns.example.org"
+		tls["force_https"] = false
+		ports := map[string]int{"port_https": 443, "port_dns_over_tls": 853, "port_dns_over_quic": 853, "port_dnscrypt": 0}
+		for _, k := range []string{"port_https", "port_dns_over_tls", "port_dns_over_quic", "port_dnscrypt"} {
+			switch x := r.IntN(10); {
+			case x < 2:
+				// absent: the default
+			case x < 5:
+				ports[k] = 0
+				tls[k] = 0
+			default:
+				ports[k] = vutil.Pick(r, c13lPorts)
+				tls[k] = ports[k]
+			}
+		}
+		if r.IntN(50) == 0 {
+			tls["port_https"], valid = vutil.Pick(r, []any{70000, "https", -443}), false
+		}
+		if r.IntN(8) == 0 {
+			tls["override_tls_ciphers"] = []any{vutil.Pick(r, c13lCiphers), vutil.Pick(r, c13lCiphers)}
+			if r.IntN(5) == 0 {
+				tls["override_tls_ciphers"], valid = []any{"TLS_NOT_A_CIPHER"}, false
+			}
+		}
+		doc["tls"] = tls
+		if enabled {
+			tcp = append(tcp, ports["port_https"], ports["port_dns_over_tls"], ports["port_dnscrypt"])
+			udp = append(udp, ports["port_dns_over_quic"])
+		}
+	} else {
+		delete(doc, "tls")
+	}
+	if c13lClash(tcp) || c13lClash(udp) {
+		valid = false
+	}
+
+	// other settings the decoding can reject
+	if r.IntN(6) == 0 {
+		doc["users"] = []any{map[string]any{"name": "admin", "password": "$2a$10$abcdefghijklmnopqrstuv"}}
+		if r.IntN(10) == 0 {
+			doc["users"], valid = "admin", false
+		}
+	}
+	if ver >= 20 && r.IntN(6) == 0 {
+		sub("statistics")["interval"] = vutil.Pick(r, []string{"24h", "168h", "1h"})
+		if r.IntN(10) == 0 {
+			sub("statistics")["interval"], valid = "a day", false
+		}
+	}
+	if ver >= 15 && r.IntN(6) == 0 {
+		sub("querylog")["interval"] = vutil.Pick(r, []string{"2160h", "24h", "6h"})
+		if r.IntN(10) == 0 {
+			sub("querylog")["interval"], valid = "ninety days", false
+		}
+	}
+	if r.IntN(5) == 0 {
+		doc["verif_extra"] = map[string]any{"a": 1, "b": []any{"x"}}
+	}
+
+	body, err := yaml.Marshal(doc)
+	if err != nil {
+		panic(err)
+	}
+
+	return body, valid
 }
 
 func c13lGen(r *rand.Rand, emit vutil.Emit) {
-	paths, _ := filepath.Glob("../configmigrate/testdata/TestMigrateConfig_Migrate/*/input.yml")
-	sort.Strings(paths)
-	var goldens [][]byte
-	for _, p := range paths {
-		if b, err := os.ReadFile(p); err == nil {
-			goldens = append(goldens, b)
-		}
-	}
-	if len(goldens) == 0 {
+	c13lLoadGoldens()
+	if len(c13lGolden) == 0 {
 		panic("no golden inputs found")
 	}
 
-	// every golden input as it is
-	for _, g := range goldens {
-		emit("C13.load", vutil.Hex(string(g)), "1")
+	// every golden document as it is: valid by construction
+	vers := make([]int, 0, len(c13lGolden))
+	for v := range c13lGolden {
+		vers = append(vers, v)
+	}
+	sort.Ints(vers)
+	for _, v := range vers {
+		doc := map[string]any{}
+		if yaml.Unmarshal(c13lGolden[v], &doc) == nil {
+			delete(doc, "auth_pass")
+			b, _ := yaml.Marshal(doc)
+			c13lEmit(emit, b, true)
+		}
+	}
+	if os.Getenv("VERIF_C13L_GOLDEN_ONLY") != "" {
+		return
 	}
 
-	n := vutil.N(300)
+	n := vutil.N(1500)
 	for i := 0; i < n; i++ {
-		g := vutil.Pick(r, goldens)
-		doc := map[string]any{}
-		if err := yaml.Unmarshal(g, &doc); err != nil {
-			continue
-		}
-		for j := 1 + r.IntN(4); j > 0; j-- {
-			c13lMutate(r, doc, 0)
-		}
-		b, err := yaml.Marshal(doc)
-		if err != nil {
-			continue
-		}
-		// The password hash is slow: keep it in one case out of ten.
-		if r.IntN(10) > 0 {
-			delete(doc, "auth_pass")
-			b, _ = yaml.Marshal(doc)
-		}
-		emit("C13.load", vutil.Hex(string(b)), "1")
+		body, valid := c13lGenDoc(r)
+		c13lEmit(emit, body, valid)
 	}
 }
 
 func TestVerifC13Load(t *testing.T) {
 	if os.Getenv("VERIF_OUT") != "" {
 		c13lDir = t.TempDir()
+		c13lDefault = config
 	}
 	vutil.Main(t, c13lGen, c13lRun)
+	_ = fmt.Sprint
 }
